@@ -50,10 +50,7 @@ Print Assumptions C13_routing_unique_partial.
    (season.options / weekday_weekend.options are open fields): such a day is received by no
    component.  The witness is replayed on the implementation by harness/c13.py (finding C13-F1). *)
 Theorem C13_routing_refuted : ~ C13_routing_statement.
-Proof.
-  intros H. destruct routing_refuted_l as (s & sm & wm & month & dow & Hc & _ & Hr).
-  destruct (H s Hc sm wm month dow) as (c & Hc'). rewrite Hr in Hc'. discriminate.
-Qed.
+Proof. exact routing_statement_refuted_l. Qed.
 Print Assumptions C13_routing_refuted.
 
 Theorem C13_foreign_season_unrouted : forall s sm wm month dow,
@@ -164,7 +161,7 @@ Print Assumptions C13_selected_allowed.
    the twelve months and seven days for every integer day number *)
 Theorem C13_calendar_ranges : forall z : Z,
   (1 <= month_of z <= 12)%Z /\ (1 <= dom_of z <= 31)%Z /\ (1 <= dow_of z <= 7)%Z.
-Proof. intros z. split; [apply month_of_range_l|split; [apply dom_of_range_l|apply dow_of_range_l]]. Qed.
+Proof. exact calendar_ranges_l. Qed.
 Print Assumptions C13_calendar_ranges.
 
 Theorem C13_weekday_advances : forall z,
